@@ -68,6 +68,10 @@ def clock_get_of(t):
     if is_call(t, 'get', self_adt='VClock') and len(t[2]) == 2:
         return t[2][0], t[2][1]
     inner = None
+    if t[0] == 'field' and t[2] == 'Some.0' and is_call(drop_lv(t[1]), 'get') and len(drop_lv(t[1])[2]) == 2:
+        # the payload of a successful lookup in the dots map (`if let Some(c) = C.dots.get(k)`): where it exists it is C.get(k);
+        # the absent case is the caller's business (see clock_presence_atom)
+        inner = drop_lv(t[1])
     if is_call(t, ('unwrap_or', 'map_or')) and len(t[2]) >= 2 and drop_lv(t[2][1])[0] == 'const' and drop_lv(t[2][1])[1] == 0:
         inner = drop_lv(t[2][0])
     elif is_call(t, 'unwrap_or_default') and len(t[2]) == 1:
@@ -81,6 +85,30 @@ def clock_get_of(t):
         m_ = drop_lv(inner[2][0])
         if m_[0] == 'field' and m_[2] == 'dots':
             return m_[1], inner[2][1]
+    return None
+
+
+def clock_presence_atom(t, param=1, name='present'):
+    """`<param>.dots` (or a clock inside it) has an entry for the key: the discriminant of / is_some / is_none on
+    `C.dots.get(k)`, contains_key  ->  atom `name` (or its negation / discriminant map), else None."""
+    ts = drop_lv(t)
+
+    def look(x):
+        x = drop_lv(x)
+        if is_call(x, ('get', 'get_mut', 'get_key_value')) and len(x[2]) == 2:
+            m_ = drop_lv(x[2][0])
+            pp = param_path(versionless(m_))
+            return m_[0] == 'field' and m_[2] == 'dots' and (param is None or (pp and pp[0] == param))
+        return False
+    if ts[0] == 'discr' and look(ts[1]):
+        return ('map', name, {True: 1, False: 0})
+    if is_call(ts, ('is_some', 'is_none')) and ts[2] and look(ts[2][0]):
+        return name if call_name(ts) == 'is_some' else ('not', name)
+    if is_call(ts, 'contains_key') and len(ts[2]) == 2:
+        m_ = drop_lv(ts[2][0])
+        pp = param_path(versionless(m_))
+        if m_[0] == 'field' and m_[2] == 'dots' and (param is None or (pp and pp[0] == param)):
+            return name
     return None
 
 
@@ -329,9 +357,9 @@ def next_dot_of(facts, t):
     if c[0] == 'binop' and c[1] == 'Add':
         ops = [drop_lv(c[2]), drop_lv(c[3])]
         one = [o for o in ops if o[0] == 'const' and o[1] == 1]
-        get = [o for o in ops if is_call(o, 'get', self_adt='VClock') and len(o[2]) == 2]
-        if one and get and versionless(get[0][2][1]) == versionless(actor):
-            return drop_lv(get[0][2][0]), versionless(actor)
+        get = [clock_get_of(o) for o in ops if clock_get_of(o) is not None]
+        if one and get and versionless(get[0][1]) == versionless(actor):
+            return drop_lv(get[0][0]), versionless(actor)
     return None
 
 
@@ -345,10 +373,10 @@ def stepped_dot_of(facts, t):
     c = drop_lv(c)
     if c[0] == 'binop' and c[1] == 'Add':
         ops = [drop_lv(c[2]), drop_lv(c[3])]
-        get = [o for o in ops if is_call(o, 'get', self_adt='VClock') and len(o[2]) == 2 and versionless(o[2][1]) == versionless(actor)]
+        get = [o for o in ops if clock_get_of(o) is not None and versionless(clock_get_of(o)[1]) == versionless(actor)]
         rest = [o for o in ops if o not in get]
         if get and len(rest) == 1:
-            return drop_lv(get[0][2][0]), versionless(actor), versionless(rest[0])
+            return drop_lv(clock_get_of(get[0])[0]), versionless(actor), versionless(rest[0])
     return None
 
 
